@@ -244,7 +244,7 @@ pub fn near_universe_diff(b: &ChessBoard) -> String {
     };
     let stm = b.get_side_to_move();
     let mut bad: Vec<String> = Vec::new();
-    let mut check = |m: BoardMove, bad: &mut Vec<String>| {
+    let check = |m: BoardMove, bad: &mut Vec<String>| {
         let inl = legal.contains(&m);
         let il = catch(|| b.is_legal_move(&m));
         let mk = catch(|| b.make_move(&m).is_ok());
